@@ -304,3 +304,14 @@ def prefixed_int_str_of(node, prefix):
     if isinstance(node, ast.BinOp) and isinstance(node.op, ast.Add) and isinstance(node.left, ast.Constant) and node.left.value == prefix:
         return int_to_decimal_str_of(node.right)
     return None
+
+
+def hyphen_joined(node):
+    """[a, b] if node is  a + "-" + b  or  "-".join((a, b)) / "-".join([a, b])  else None"""
+    if isinstance(node, ast.BinOp) and isinstance(node.op, ast.Add) and isinstance(node.left, ast.BinOp) and isinstance(node.left.op, ast.Add) \
+            and isinstance(node.left.right, ast.Constant) and node.left.right.value == "-":
+        return [node.left.left, node.right]
+    if isinstance(node, ast.Call) and isinstance(node.func, ast.Attribute) and node.func.attr == "join" and isinstance(node.func.value, ast.Constant) \
+            and node.func.value.value == "-" and len(node.args) == 1 and isinstance(node.args[0], (ast.Tuple, ast.List)) and len(node.args[0].elts) == 2:
+        return list(node.args[0].elts)
+    return None
